@@ -66,3 +66,135 @@ contract(
     ensures=[("exact", "result == IsWT(self.project, slotIdx)")],
     calls={"self.project.isWorkingTime": ("contract", PJ + "::Project.isWorkingTime")},
 )
+
+import contracts.c03_task as K  # noqa
+
+# gap of a dependency item in seconds (gapduration only; gaplength is working time, handled by its own loop)
+ghost("DepOn", ["d"], "ite(d.is_dict, d.onstart, False)")
+ghost("DepTime", ["d", "sc"], "ite(DepOn(d), TStart(some(DepTask(d)), sc), TEnd(some(DepTask(d)), sc))")
+ghost("DepGap", ["d"], "ite(d.is_dict and d.gapduration is not None and some(d.gapduration) != '', uf_dur(some(d.gapduration)) * 3600, 0)")
+
+contract(
+    TS + "::TaskScenario._computeMaxGapDelayedStart", props=["C04"],
+    params={"self": Ref("TaskScenario"), "earliest_start": DT, "effort": Real}, ret=DT,
+    ensures=[("never-earlier", "result >= earliest_start")],
+    calls={"self._getSuccessorsWithMaxGap": ("pure", note_type(List(Tuple(Ref("Task"), Str, Opt(Str)), region="local:maxgap"))),
+           "self._getSuccessorEarliestStart": ("pure", DT),
+           "self._parse_duration": ("spec", ["self", "s"], "uf_dur(s)"),
+           "self._computeStartFromEnd": ("pure", DT)},
+    loops={0: {"inv": [("never-earlier", "delayed_start >= earliest_start")],
+               "locals": {"delayed_start": DT, "successor_earliest": DT, "desired_end": DT, "required_start": DT,
+                          "gap_hours": Real}}},
+    locals={"delayed_start": DT},
+    note="successor lookups and the backward estimate are treated as pure functions; only `result >= earliest_start` "
+         "is claimed (maxgapduration deliberately delays a task)",
+)
+
+# ---- slot/time algebra of the project, as lemmas (proved here, assumed where PT / PIdx are hidden) -----------------
+PT_LEMMAS = [
+    "forall(i, forall(j, implies(i < j, secs(PT(self.project, j)) >= secs(PT(self.project, i)) + PG(self.project))))",
+    "forall(d, 'DT', implies(d >= PStart(self.project), PT(self.project, PIdx(self.project, d)) <= d and "
+    "secs(d) < secs(PT(self.project, PIdx(self.project, d))) + PG(self.project) and PIdx(self.project, d) >= 0))",
+    "forall(d, 'DT', forall(e, 'DT', implies(d <= e, PIdx(self.project, d) <= PIdx(self.project, e))))",
+    "secs(PT(self.project, 0)) == secs(PStart(self.project))",
+]
+contract(
+    "lemma::project_slot_algebra", props=["C04", "C06", "C08", "C11", "C17"],
+    client_src="def lemma(self):\n    pass\n",
+    params={"self": Ref("TaskScenario")},
+    requires=[("g", "PG(self.project) >= 1 and self.project.attributes['start'] is not None")],
+    ensures=[(f"L{i}", src) for i, src in enumerate(PT_LEMMAS)],
+)
+
+_AllDeps = "getdeps"   # bound below through a site check on the call of getAllDependencies
+
+_sched_common_req = [
+    ("not-scheduled", "not self.scheduled and self.currentSlotIdx is None"),
+    ("project", "PG(self.project) >= 1 and self.project.attributes['start'] is not None and self.project.attributes['end'] is not None "
+                "and PStart(self.project) <= some(self.project.attributes['end'])"),
+    ("pboard", "implies(self.project.scoreboard is not None, Upper(self.project) < len(some(self.project.scoreboard).sb))"),
+    ("world", "World(self)"),
+    ("limits-wf", "ChainLimWf(self.property, self.scenarioIdx)"),
+    ("data", "self.property.data is not None and self.scenarioIdx < len(some(self.property.data))"),
+    K._ss_sel_distinct, K._ss_alloc_distinct,
+    ("fresh", "self.doneEffort == 0 and self.slotStartOffset == 0"),
+    ("no-duration", "attr(self.property, 'duration', self.scenarioIdx) is None or some(attr(self.property, 'duration', self.scenarioIdx)) == 0"),
+    ("not-contiguous", "attr(self.property, 'flags', self.scenarioIdx) is None"),
+    ("eff-positive", "forall(r, 'Ref:Resource', Eff(r, self.scenarioIdx) > 0)"),
+    ("dur-nonneg", "forall(s, 'Str', uf_dur(s) >= 0)"),
+]
+
+contract(
+    TS + "::TaskScenario.schedule", variant="asap-deps", props=["C04", "C06", "C08", "C11"],
+    params={"self": Ref("TaskScenario")}, ret=Bool,
+    requires=_sched_common_req + [
+        ("forward", "attr(self.property, 'forward', self.scenarioIdx) is not None and some(attr(self.property, 'forward', self.scenarioIdx))"),
+        ("no-own-start", "TStart(self.property, self.scenarioIdx) is None"),
+        ("effort-task", "IsEffortTask(self) and attr(self.property, 'allocate', self.scenarioIdx) is not None and "
+                        "len(some(attr(self.property, 'allocate', self.scenarioIdx))) > 0"),
+        # predecessors are placed: their dates are in the horizon (readiness + C11 of the predecessors)
+        ("deps-placed", "forall(d, 'Ref:Dep', implies(DepTask(d) is not None and DepTime(d, self.scenarioIdx) is not None, "
+                        "some(DepTime(d, self.scenarioIdx)) >= PStart(self.project)))"),
+        ("no-gaplength", "forall(d, 'Ref:Dep', implies(d.is_dict, d.gaplength is None))"),
+    ],
+    assumes=K.anc_axioms_all("Resource") + L.anc_axioms("self.property") + PT_LEMMAS,
+    hide={"PT": DT, "PIdx": Int},
+    ensures=[
+        # C11: either placed inside the horizon, or reported as run-away -- never an exception
+        ("total", "iff(result, Sched(self.property, self.scenarioIdx)) and implies(not result, self.isRunAway)"),
+        # C04: the start respects every predecessor (own and inherited) plus its gap
+        ("after-own-deps", "implies(result, TStart(self.property, self.scenarioIdx) is not None and "
+                           "forall(k, 0, NDeps(self.property, self.scenarioIdx), "
+                           "implies(DepTask(some(Deps(self.property, self.scenarioIdx))[k]) is not None and "
+                           "DepTime(some(Deps(self.property, self.scenarioIdx))[k], self.scenarioIdx) is not None, "
+                           "secs(some(TStart(self.property, self.scenarioIdx))) >= "
+                           "secs(some(DepTime(some(Deps(self.property, self.scenarioIdx))[k], self.scenarioIdx))) + "
+                           "DepGap(some(Deps(self.property, self.scenarioIdx))[k]))))"),
+        ("after-inherited-deps", "implies(result, forall(j, implies(j >= 0 and anc(self.property, j) is not None, "
+                                 "forall(k, 0, NDeps(some(anc(self.property, j)), self.scenarioIdx), "
+                                 "implies(DepTask(some(Deps(some(anc(self.property, j)), self.scenarioIdx))[k]) is not None and "
+                                 "DepTime(some(Deps(some(anc(self.property, j)), self.scenarioIdx))[k], self.scenarioIdx) is not None, "
+                                 "secs(some(TStart(self.property, self.scenarioIdx))) >= "
+                                 "secs(some(DepTime(some(Deps(some(anc(self.property, j)), self.scenarioIdx))[k], self.scenarioIdx))) + "
+                                 "DepGap(some(Deps(some(anc(self.property, j)), self.scenarioIdx))[k]))))))"),
+        # C06/C11: dates inside the horizon, start before end
+        ("in-horizon", "implies(result, TStart(self.property, self.scenarioIdx) is not None and TEnd(self.property, self.scenarioIdx) is not None and "
+                       "some(TStart(self.property, self.scenarioIdx)) >= PStart(self.project))"),
+    ],
+    calls={
+        "self.getAllDependencies": ("contract", TS + "::TaskScenario.getAllDependencies"),
+        "self._parse_duration": ("spec", ["self", "s"], "uf_dur(s)"),
+        "self._computeMaxGapDelayedStart": ("contract", TS + "::TaskScenario._computeMaxGapDelayedStart"),
+        "self.project.dateToIdx": ("spec", ["self", "d"], "PIdx(self, d)"),
+        "self.project.idxToDate": ("spec", ["self", "i"], "ite(self.attributes['start'] is None, None, PT(self, i))"),
+        "self.isWorkingTime": ("contract", TS + "::TaskScenario.isWorkingTime"),
+        "self.scheduleSlot": ("contract", TS + "::TaskScenario.scheduleSlot"),
+    },
+    static={"hasattr(dep, 'task')": False},
+    loops={
+        # dependency loop (forward branch): the bound dominates every predecessor seen so far
+        0: {"inv": [
+            ("bound", "earliest_start >= PStart(self.project)"),
+            ("dominates", "forall(k, 0, _i, implies(DepTask(_iter[k]) is not None and DepTime(_iter[k], self.scenarioIdx) is not None, "
+                          "secs(earliest_start) >= secs(some(DepTime(_iter[k], self.scenarioIdx))) + DepGap(_iter[k])))"),
+        ], "locals": {"earliest_start": DT, "t": Opt(Ref("Task")), "gapduration": Opt(Str), "gaplength": Opt(Str),
+                      "onstart": Bool, "dep_time": Opt(DT), "gap_hours": Real}},
+        # the slot walk
+        9: {"inv": [
+            ("cursor", "TaskOk(self)"),
+            ("world", "World(self)"),
+            K._ss_sel_distinct,
+            ("unfinished", "self.doneEffort >= 0 and self.doneEffort < EffortOf(self)"),
+            ("not-before-bound", "some(self.currentSlotIdx) >= slot_idx and self.slotStartOffset == secs(earliest_start) - secs(PT(self.project, slot_idx)) "
+                                 "and self.slotStartOffset >= 0"),
+            # C04: once a start is written it is not before the dependency bound
+            ("start-ok", "ite(TStart(self.property, self.scenarioIdx) is None, self.doneEffort == 0, "
+                         "some(TStart(self.property, self.scenarioIdx)) >= earliest_start)"),
+            ("not-yet-scheduled", "not Sched(self.property, self.scenarioIdx) or True"),
+        ], "decreases": "Upper(self.project) - some(self.currentSlotIdx)",
+            "locals": {"first_booked_slot": Opt(Int), "previous_effort": Real}},
+    },
+    locals={"earliest_start": DT},
+    modifies=K._SS_MOD + ["TaskScenario.currentSlotIdx@self", "TaskScenario.slotStartOffset@self", "TaskScenario.isRunAway@self",
+                          "TaskScenario.scheduled@self", "@scheduled@self.property"],
+)
